@@ -184,6 +184,7 @@ func (denyPrefixACL) CanAppend(e accesscontroller.LogEntry, _ idp.Interface, _ a
 type World struct {
 	ReuseOptions bool // loaders get one reused LogOptions value (a caller keeping its options around)
 	sharedOpts   *ipfslog.LogOptions
+	sharedFetch  *entry.FetchOptions // ... and one reused FetchOptions value for the JSON loader, used before for a log of another codec
 	DenyPrefix   bool
 	Seed         int64
 	Ctx          context.Context
